@@ -53,9 +53,12 @@ structure Member where
   state : Int
   deriving DecidableEq, Repr, Inhabited
 
-/-- `Node.MemberStatus` (with `GetAddress`: host, or address when host is empty) -/
+/-- Go's `int32(x)` of an `int`: the low 32 bits, signed -/
+def toInt32 (x : Int) : Int := (x + 2147483648) % 4294967296 - 2147483648
+
+/-- `Node.MemberStatus` (with `GetAddress`: host, or address when host is empty; `Port: int32(port)`) -/
 def Node.member (n : Node) : Member :=
-  { id := n.id, host := if n.host = "" then n.addr else n.host, port := n.port,
+  { id := n.id, host := if n.host = "" then n.addr else n.host, port := toInt32 n.port,
     services := n.services, state := n.state }
 
 /-- one event of a watch response, the etcd key already reduced to its last path
@@ -152,6 +155,92 @@ def pstep (s : PState) : POp → PState × Option (List Member)
     if evs.isEmpty then (s, none)
     else let s' := respond s evs; (s', some (publish s'.members))
   | .setState st => (setSelfState s st, none)
+
+/-! ## the provider in front of the etcd store: listing, watch sessions, lost events
+
+`StartMember`/`StartClient` read the prefix with `Get` (`fetchNodes`), publish, and only then
+`startWatching` calls `client.Watch(ctx, prefix, WithPrefix())` — without a start revision, so
+the watch begins at the store's revision *at the time it is created*.  `_keepWatching` returns
+on a failed response and the loop of `startWatching` opens a fresh watch the same way.
+Nothing re-lists.  The store side below is etcd's documented behaviour (a PUT always produces
+an event; a DELETE / lease expiry produces one only when the key existed; a watch without a
+start revision sees only later writes). -/
+
+/-- one write to the watched prefix (by any node, or by etcd itself: lease expiry/revoke) -/
+inductive Wr
+  | put (k : String) (n : Node)
+  | del (k : String)
+  deriving Repr
+
+/-- the store after the write, and the event it produces for open watches -/
+def storeStep (st : AL Node) : Wr → AL Node × Option Ev
+  | .put k n => (st.set k n, some (.put k n))
+  | .del k =>
+    match st.get k with
+    | none => (st, none)
+    | some _ => (st.erase k, some (.del k))
+
+structure Sys where
+  store : AL Node := []
+  p : PState
+  /-- a watch is open -/
+  watching : Bool := false
+  /-- events the open watch has still to hand over, oldest first -/
+  pending : List Ev := []
+  /-- number of `client.Watch` calls so far -/
+  watches : Nat := 0
+  /-- `registerService` + `startKeepAlive` have run (members only) -/
+  registered : Bool := false
+  /-- `selfStateDirt` -/
+  dirt : Bool := false
+  deriving Repr
+
+inductive SOp
+  | write (w : Wr)          -- the prefix changes
+  | fetch (client : Bool)   -- `fetchNodes` + `updateNodes[WithSelf]` + publish (StartClient / StartMember)
+  | openWatch               -- `keepWatching`: `client.Watch` from "now"
+  | deliver (k : Nat)       -- the watch hands over its `k` oldest pending events as one response
+  | fail                    -- failed response: `_keepWatching` returns, the loop opens a new watch from "now"
+  | setState (st : Int)     -- `UpdateClusterState`
+  | register                -- `registerService` and the first `keepAliveForever`: the node's own key is PUT twice
+  | kaTick                  -- a keep-alive answer arrives: if the own state is dirty, revoke the lease
+                            -- (etcd deletes the own key) and `keepAliveForever` starts over with a fresh PUT
+  deriving Repr
+
+/-- `fetchNodes`: the values under the prefix -/
+def fetched (st : AL Node) : List Node := st.map (·.2)
+
+/-- one write reaches the store and, as an event, the open watch -/
+def writeSys (s : Sys) (w : Wr) : Sys :=
+  let r := storeStep s.store w
+  { s with store := r.1, pending := if s.watching then s.pending ++ r.2.toList else s.pending }
+
+def sstep (s : Sys) : SOp → Sys × Option (List Member)
+  | .write w => (writeSys s w, none)
+  | .register =>
+    ({ writeSys (writeSys s (.put s.p.self.id s.p.self)) (.put s.p.self.id s.p.self) with registered := true }, none)
+  | .kaTick =>
+    if s.registered && s.dirt then
+      ({ writeSys (writeSys s (.del s.p.self.id)) (.put s.p.self.id s.p.self) with dirt := false }, none)
+    else (s, none)
+  | .fetch client =>
+    if client then
+      let m := updateNodes s.p.members (fetched s.store)
+      ({ s with p := { s.p with members := m } }, some (publish m))
+    else
+      let r := pstep s.p (.listing (fetched s.store))
+      ({ s with p := r.1 }, r.2)
+  | .openWatch => ({ s with watching := true, pending := [], watches := s.watches + 1 }, none)
+  | .deliver k =>
+    if s.watching then
+      let r := pstep s.p (.response (s.pending.take k))
+      ({ s with p := r.1, pending := s.pending.drop k }, r.2)
+    else (s, none)
+  | .fail =>
+    if s.watching then ({ s with pending := [], watches := s.watches + 1 }, none) else (s, none)
+  | .setState st => ({ s with p := (pstep s.p (.setState st)).1, dirt := true }, none)
+
+def srun (s : Sys) (ops : List SOp) : Sys := ops.foldl (fun s op => (sstep s op).1) s
 
 /-! ## service directory (`MakeMembers`) -/
 
@@ -333,5 +422,14 @@ def Query.answer : Query → Dir → Answer
 the getter loads its field once, then computes on what it loaded -/
 def readAt (v0 : Dir) (pubs : List Dir) (k : Nat) (q : Query) : Answer :=
   q.answer ((runStores v0 ((storesOf pubs).take k)).only q.field)
+
+/-- `Cluster.makeFullNameServices`: `type.name` for every local service that has a config entry -/
+def makeFullNameServices (services : List String) (cfg : AL String) : List String :=
+  services.filterMap (fun n => (cfg.get n).map (fun t => t ++ "." ++ n))
+
+/-- `cluster.go: makeSelfCluster` (cluster disabled) publishes `BuildSelfClusterTopology()`:
+the node alone, in working state whatever its own state is -/
+def selfTopology (self : Node) : List Member :=
+  [{ id := self.id, host := self.host, port := toInt32 self.port, services := self.services, state := workingState }]
 
 end Cell2v.Directory
